@@ -42,14 +42,6 @@ theorem guardWaitEnter_nf (h : Safe (isKey p) w) (g : Nat) (hg : g < w.guards.si
   rw [heq]
   exact h.nf
 
-theorem Safe.condSignal_fst (h : Safe ex w) (g : Nat) : Safe ex (Sim.condSignal w g).1 := by
-  unfold Sim.condSignal
-  split
-  · exact h
-  · dsimp only
-    split
-    · exact h
-    · exact Safe.foldl (fun w t h => by safe) _ (Safe.foldl (fun w t h => by safe) _ h)
 macro_rules | `(tactic| safe_step) => `(tactic| with_reducible apply Safe.condSignal_fst)
 
 theorem stat_of_safe_gsize {w w' : World} (hs : Stat w w') : w'.guards.size = w.guards.size := stat_gsize hs
